@@ -22,15 +22,18 @@ from vp.project import NAN, conf_snapshot, enc_int, enc_joint, enc_scaled, same_
 
 def enc_milli(a):
     a = np.asarray(a, dtype=np.float64) * 1000.0
-    return np.where(np.isnan(a), NAN, np.rint(np.nan_to_num(a))).astype(np.int64).tolist()
+    # (values that do not fit TLC's 32-bit integers become the INEXACT sentinel, which no specification value equals)
+    r = np.where(np.isnan(a), NAN, np.rint(np.nan_to_num(a, posinf=4e9, neginf=-4e9)))
+    return np.where(np.abs(r) > 2.0e9, 1000000009, r).astype(np.int64).tolist()
 
 
-def gen_cv(rng, rows, cols, nd, span):
+def gen_cv(rng, rows, cols, nd, span, low=0):
+    """integer costs in [low, low + span] (the normalisation by the global extremes must not assume a zero minimum)"""
     c = rng.randint(0, span + 1, size=(rows, cols, nd)).astype(np.float32)
     c[rng.rand(rows, cols, nd) < [0.0, 0.15, 0.35][rng.randint(3)]] = np.nan
     c[rng.rand(rows, cols) < 0.1] = np.nan            # all-NaN pixels
     c[0, 0, 0], c[0, 0, -1] = 0, span                  # the global extremes occur
-    return c
+    return c + np.float32(low)
 
 
 def run(tier):
@@ -57,7 +60,8 @@ def run(tier):
         rows, cols = int(rng.randint(2, 5)), int(rng.randint(3, 8))
         nd = int(rng.randint(2, 6))
         span = int([7, 9, 11, 13, 16, 20][k % 6])
-        costs = gen_cv(rng, rows, cols, nd, span)
+        low = int([0, 3, 7, 12][(k // 2) % 4])
+        costs = gen_cv(rng, rows, cols, nd, span, low)
         dmin = int(rng.randint(-3, 2))
         s = int([1, 2][k % 2])
         eta_max, eta_step, sp, sq = grids[k % 4]
@@ -66,7 +70,7 @@ def run(tier):
         suffix = ["", ".a", ".7"][k % 3]
         prev = (["confidence_from_zzz"], rng.rand(rows, cols, 1)) if k % 2 else None
         vm = rng.choice([0, 1, 2, 4, 64], size=(rows, cols))
-        base = dict(rows=rows, cols=cols, nd=nd, cv=enc_scaled(costs, 1), cmin=0, cmax=span, sp=sp, sq=sq, tp=tp, tq=tq, first=dmin * s, s=s)
+        base = dict(rows=rows, cols=cols, nd=nd, cv=enc_scaled(costs, 1), cmin=low, cmax=low + span, sp=sp, sq=sq, tp=tp, tq=tq, first=dmin * s, s=s)
         Kdoc = int(np.ceil(eta_max / eta_step - 1e-9))
 
         def fresh():
